@@ -61,7 +61,7 @@ impl StrToStringShim for &str {
 }
 
 // crate::Error: message irrelevant; `data` is the offending text, `index` its position (not verified).
-pub struct Error { pub data: String, pub index: usize }
+pub struct Error { pub data: String, pub index: usize, pub is_limit: bool }
 impl Error {
     #[verifier::external_body]
     pub fn with_loc<S>(message: S, data: String, index: usize) -> (r: Error) ensures r.data == data { unimplemented!() }
@@ -468,6 +468,8 @@ pub open spec fn item_text<'a>(r: Result<Token<'a>, Error>) -> Seq<char> { match
 
 
 KIND_POST = ("ensures", "token_has_the_right_kind_and_is_maximal", "r is Ok ==> token_ok(r->Ok_0.kind, r->Ok_0.data@, next_char(&*final(self)))", ["C03"])
+ADV_REQ = [("requires", "idle", "old(self).idle()"),
+           ("requires", "source_is_the_model", "old(self).source@ == old(self).m@.chars && byte_off(old(self).m@.chars, old(self).m@.chars.len() as int) <= usize::MAX")]
 ADV_POST = [
     ("ensures", "idle_again", "final(self).idle() && final(self).m@.chars == old(self).m@.chars && final(self).source == old(self).source"),
     ("ensures", "item_is_next_piece_of_input", "final(self).m@.start >= old(self).m@.start && item_text(r) =~= final(self).emitted(old(self))"),
@@ -512,8 +514,7 @@ UNIT = {
     
         dict(file=LX, kind="fn", name="advance", container=r"Cursor<'a>", container_name="Cursor", wrap="impl<'a> Cursor<'a>",
              n_loops=1,
-             clauses=[("requires", "idle", "old(self).idle()"),
-                      ("requires", "source_is_the_model", "old(self).source@ == old(self).m@.chars && byte_off(old(self).m@.chars, old(self).m@.chars.len() as int) <= usize::MAX")] + ADV_POST + [KIND_POST],
+             clauses=ADV_REQ + ADV_POST + [KIND_POST],
              rewrites=[("&self.source[hex_start..hex_end]", "str_slice(self.source, hex_start, hex_end)", 1),
                        ("&self.source[escape_sequence_start..hex_end]", "str_slice(self.source, escape_sequence_start, hex_end)", 1),
                        (".to_string()", ".to_string_shim()", None)],
